@@ -8,6 +8,7 @@ from mc import core
 
 ID = 'C13'
 LEVEL = 'model_checking'
+FULL_IN_QUICK = True     # the complete space costs seconds: quick == thorough
 
 BASIC = set('ABCDEFGHIJKLMNOPQRSTUVWXYZ0123456789!"&\'()*+,-./:;?= ')
 EXT = BASIC | set('abcdefghijklmnopqrstuvwxyz%~@[]_{}\\|<>#$')
@@ -273,7 +274,7 @@ def work(shard):
 
 
 def run(R):
-    shards = space(R.tier)
+    shards = space('thorough' if R.thorough else R.tier)
     R.bounds = {'numeric': 'all strings of length <= %d over {0,5,-,.,a,SP} (+ leading +)' % (7 if R.thorough else 6),
                 'dates': 'every YYYYMMDD for 16 boundary years x months 00..13 x days 00..32; every YYMMDD',
                 'times': 'every HHMM, HHMMSS (HH 00..24, MM/SS 00..60), decimals, all digit strings <= 4',
